@@ -127,7 +127,11 @@ impl Baton {
     }
 
     fn wait_for(&self, t: usize, need_consumed: bool) -> Reached {
-        let deadline = Instant::now() + self.timeout;
+        self.wait_for_until(t, need_consumed, self.timeout)
+    }
+
+    fn wait_for_until(&self, t: usize, need_consumed: bool, timeout: Duration) -> Reached {
+        let deadline = Instant::now() + timeout;
         let mut g = self.inner.lock().unwrap();
         loop {
             if (!need_consumed || !g.go[t]) && g.at[t].is_some() {
@@ -170,6 +174,24 @@ impl Baton {
             self.cv.notify_all();
         }
         self.wait_for(t, true)
+    }
+
+    /// like `step`, but gives up after `timeout` (the thread keeps running: it is blocked somewhere
+    /// between two points); `wait_parked_for` picks it up again later
+    pub fn step_probe(&self, t: usize, timeout: Duration) -> Reached {
+        {
+            let mut g = self.inner.lock().unwrap();
+            if g.finished[t] {
+                return Reached::Finished;
+            }
+            assert!(g.at[t].is_some(), "step of a thread that is not parked");
+            g.go[t] = true;
+            self.cv.notify_all();
+        }
+        self.wait_for_until(t, true, timeout)
+    }
+    pub fn wait_parked_for(&self, t: usize, timeout: Duration) -> Reached {
+        self.wait_for_until(t, true, timeout)
     }
 
     pub fn log(&self) -> Vec<(usize, &'static str)> {
